@@ -41,7 +41,14 @@ def gather_programs(chk, quick, rng, W):
     lang = [c for c in r.cases if c.get("valid")]
     r.cases = []
     rng.shuffle(lang)
-    for c in lang[: (1500 if quick else 12000)]:
+    # stratified: every (container, kind, cardinality, presence) once, then a seeded sample
+    seen, first, rest = set(), [], []
+    for c in lang:
+        k = (c.get("container"), c.get("kind"), c.get("card"), c.get("presence"))
+        (rest if k in seen else first).append(c)
+        seen.add(k)
+    lim = 1500 if quick else 12000
+    for c in (first + rest)[:max(lim, len(first))]:
         cases.append({"lang": c})
     # (b2) every rule / annotation of the schema.proto catalogue (program space of C04)
     r = chk.tlc("J5RulesMC.tla", "J5Rules_reflect1.cfg", "rules", workers=W, timeout=1500)
